@@ -6,6 +6,7 @@ import json,sys,glob,os
 i=sys.argv[1]; p='/verif/seeded/%s/meta.json'%i; m=json.load(open(p))
 demos=sorted(glob.glob('/tmp/seed-%s-scratch/out/demo*.py'%i))+sorted(glob.glob('/tmp/seed-%s-scratch/out/demo*.sh'%i))+sorted(glob.glob('/tmp/seed-%s-scratch/out/run_demo*.sh'%i))
 m['demo_cmd_agent']=m.get('demo_cmd'); d=demos[0] if demos else ''
+m['check_property']=i[:3]
 m['demo_cmd']=('python3 ' if d.endswith('.py') else '/tmp/seed-%s/vrun sh '%i if d.endswith('.sh') else '')+d
 json.dump(m,open(p,'w'),indent=1); print(m['demo_cmd'])
 PY
